@@ -205,7 +205,8 @@ class Var:
                 shp = ATTRS[a][2]["shape"]
                 form = st.pick(f"{site}:dimension-stmt-form", ["dimension :: x(s)", "dimension x(s)"])
                 sep = " :: " if "::" in form else " "
-                s = st.kw("dimension") + sep + ", ".join(f"{st.ref(n)}{shp}" for n in self.names)
+                gap = st.pick(f"{site}:dimension-stmt-name-blank", ["", " "])
+                s = st.kw("dimension") + sep + ", ".join(f"{st.ref(n)}{gap}{shp}" for n in self.names)
             else:
                 form = st.pick(f"{site}:attr-stmt-form:{a}", ["a :: x", "a x"])
                 kwpart = stmt.split("(")[0]
